@@ -550,6 +550,17 @@ def _events_of(expr_or_stmt: ast.AST, env, stmt) -> List[Event]:
     return out
 
 
+def _const_truth(e: ast.AST) -> Optional[bool]:
+    """Truth value of a test that became a literal after substitution (`x = False ... if not x:`): only the feasible
+    branch is a path. None when it is not a literal."""
+    if isinstance(e, ast.Constant) and (e.value is None or isinstance(e.value, (bool, int, float, str))):
+        return bool(e.value)
+    if isinstance(e, ast.UnaryOp) and isinstance(e.op, ast.Not):
+        t = _const_truth(e.operand)
+        return None if t is None else (not t)
+    return None
+
+
 class PathEnumerator:
     def __init__(self, fn_node, init_env: Optional[Dict[str, ast.AST]] = None, max_paths: int = MAX_PATHS):
         self.fn = fn_node
@@ -639,12 +650,16 @@ class PathEnumerator:
                 st.stmts.append(s)
                 st.events.extend(_events_of(s.test, st.env, s))
                 test = subst(s.test, st.env)
-                a = st.fork()
-                a.conds.append(Cond(s.test, test, True))
-                b = st.fork()
-                b.conds.append(Cond(s.test, test, False))
-                nxt += self._block(s.body, [a])
-                nxt += self._block(s.orelse, [b]) if s.orelse else [b]
+                known = _const_truth(test)
+                if known is not True:
+                    b = st.fork()
+                    b.conds.append(Cond(s.test, test, False))
+                if known is not False:
+                    a = st.fork()
+                    a.conds.append(Cond(s.test, test, True))
+                    nxt += self._block(s.body, [a])
+                if known is not True:
+                    nxt += self._block(s.orelse, [b]) if s.orelse else [b]
             return nxt
         if isinstance(s, (ast.For, ast.AsyncFor)):
             for st in live:
@@ -764,7 +779,38 @@ class PathEnumerator:
 _CACHE: Dict[Tuple[int, str], List[Path]] = {}
 
 
+def _alias_closure_env(fn_node) -> Dict[str, ast.AST]:
+    """Locals of the enclosing function(s) that are plain aliases (a name or an attribute chain: `cfg = env.config.dispatcher`)
+    at the point where this nested function is defined. A nested function reads them through its closure; expanding them
+    makes 'hoist a repeated lookup into a local' invisible to the rules."""
+    out: Dict[str, ast.AST] = {}
+    par = getattr(fn_node, "_parent", None)
+    while par is not None and not isinstance(par, (ast.FunctionDef, ast.AsyncFunctionDef, ast.Lambda)):
+        par = getattr(par, "_parent", None)
+    if par is None or isinstance(par, ast.Lambda) or not isinstance(fn_node, (ast.FunctionDef, ast.AsyncFunctionDef)):
+        return out
+    try:
+        env = closure_env(par, fn_node.name)
+    except AnalysisError:
+        return out
+
+    def alias(e):
+        while isinstance(e, ast.Attribute):
+            e = e.value
+        return isinstance(e, ast.Name)
+
+    own = {a.arg for a in fn_node.args.posonlyargs + fn_node.args.args + fn_node.args.kwonlyargs}
+    for k, v in env.items():
+        if k not in own and alias(v) and not (isinstance(v, ast.Name) and v.id == k):
+            out[k] = v
+    return out
+
+
 def paths(fn_node, init_env: Optional[Dict[str, ast.AST]] = None) -> List[Path]:
+    if init_env is None:
+        auto = _alias_closure_env(fn_node)
+        if auto:
+            init_env = auto
     key = (id(fn_node), repr(sorted((init_env or {}).keys())))
     if key not in _CACHE:
         _CACHE[key] = PathEnumerator(fn_node, init_env).run()
@@ -821,3 +867,142 @@ def mentions(e: Optional[ast.AST], name: str) -> bool:
     if e is None:
         return False
     return any(isinstance(n, ast.Name) and n.id == name for n in ast.walk(e))
+
+
+# ----------------------------------------------------------------------------- value comparison modulo if-expression / if-statement
+def specialise(e: ast.AST, facts) -> ast.AST:
+    """Resolve the conditional expressions of `e` whose test is decided by the path facts."""
+    known = {}
+    for a, pol in facts:
+        known[ast.dump(a)] = pol
+
+    def f(n):
+        if isinstance(n, ast.IfExp):
+            t = n.test
+            d = ast.dump(t)
+            if d in known:
+                return n.body if known[d] else n.orelse
+            if isinstance(t, ast.UnaryOp) and isinstance(t.op, ast.Not) and ast.dump(t.operand) in known:
+                return n.orelse if known[ast.dump(t.operand)] else n.body
+            ct = _const_truth(t)
+            if ct is not None:
+                return n.body if ct else n.orelse
+        return n
+
+    prev = None
+    cur = e
+    for _ in range(4):
+        cur = rewrite(cur, f)
+        d = ast.dump(cur)
+        if d == prev:
+            break
+        prev = d
+    return cur
+
+
+def values_match(ps: Sequence[Path], want) -> bool:
+    """Do the return paths `ps` together compute `want` (an expression that may contain conditional expressions)? Each
+    path's value must equal `want` specialised by that path's own conditions — so `return a if c else b` and
+    `if c: return a / else: return b` (or the assignment forms) are the same thing."""
+    if isinstance(want, str):
+        try:
+            want = ast.parse(want, mode="eval").body
+        except SyntaxError:
+            # synthetic names ($elem ...) cannot be parsed back: fall back to the text of a single return
+            return len(ps) == 1 and dump(ps[0].value) == want
+    if not ps:
+        return False
+    for p in ps:
+        facts = p.facts()
+        if cdump(specialise(want, facts)) != cdump(specialise(p.value, facts)):
+            return False
+    return True
+
+
+# ----------------------------------------------------------------------------- map/filter/comprehension normal form
+def canon(e: ast.AST) -> ast.AST:
+    """One spelling for element-wise sequence expressions: `map(lambda v: E, XS)` and `filter(lambda v: C, XS)` become
+    generator expressions, `list(<genexp>)` becomes a list comprehension, and every comprehension variable is renamed by
+    nesting depth (`_0`, `_1`, ...), so `Counter(map(lambda r: r.t, rs))` and `Counter(x.t for x in rs)` read the same."""
+
+    def ren(node: ast.AST, mapping: Dict[str, str]) -> ast.AST:
+        def f(n):
+            if isinstance(n, ast.Name) and n.id in mapping:
+                return ast.copy_location(ast.Name(id=mapping[n.id], ctx=n.ctx), n)
+            return n
+        return rewrite(node, f)
+
+    def go(n: ast.AST, depth: int) -> ast.AST:
+        # children first
+        if isinstance(n, ast.Call) and isinstance(n.func, ast.Name) and n.func.id in ("map", "filter") and len(n.args) == 2 \
+                and isinstance(n.args[0], ast.Lambda) and len(n.args[0].args.args) == 1 and not n.keywords:
+            lam: ast.Lambda = n.args[0]
+            v = lam.args.args[0].arg
+            tgt = ast.Name(id=v, ctx=ast.Store())
+            if n.func.id == "map":
+                ge = ast.GeneratorExp(elt=lam.body, generators=[ast.comprehension(target=tgt, iter=n.args[1], ifs=[], is_async=0)])
+            else:
+                ge = ast.GeneratorExp(elt=ast.Name(id=v, ctx=ast.Load()), generators=[ast.comprehension(target=tgt, iter=n.args[1], ifs=[lam.body], is_async=0)])
+            return go(ast.copy_location(ge, n), depth)
+        if isinstance(n, ast.Call) and isinstance(n.func, ast.Name) and n.func.id in ("map", "filter") and len(n.args) == 2 \
+                and isinstance(n.args[0], (ast.Name, ast.Attribute)) and not n.keywords:
+            v = "_m"
+            call = ast.Call(func=n.args[0], args=[ast.Name(id=v, ctx=ast.Load())], keywords=[])
+            tgt = ast.Name(id=v, ctx=ast.Store())
+            if n.func.id == "map":
+                ge = ast.GeneratorExp(elt=call, generators=[ast.comprehension(target=tgt, iter=n.args[1], ifs=[], is_async=0)])
+            else:
+                ge = ast.GeneratorExp(elt=ast.Name(id=v, ctx=ast.Load()), generators=[ast.comprehension(target=tgt, iter=n.args[1], ifs=[call], is_async=0)])
+            return go(ast.copy_location(ge, n), depth)
+        if isinstance(n, ast.Call) and isinstance(n.func, ast.Name) and n.func.id == "list" and len(n.args) == 1 and not n.keywords:
+            inner = go(n.args[0], depth)
+            if isinstance(inner, ast.GeneratorExp):
+                return ast.copy_location(ast.ListComp(elt=inner.elt, generators=inner.generators), n)
+            return ast.copy_location(ast.Call(func=n.func, args=[inner], keywords=[]), n)
+        if isinstance(n, (ast.GeneratorExp, ast.ListComp, ast.SetComp)) and len(n.generators) == 1 and isinstance(n.generators[0].target, ast.Name):
+            g = n.generators[0]
+            new = f"_{depth}"
+            m = {g.target.id: new}
+            it = go(g.iter, depth)
+            # merge a directly nested filter-genexp: (E for v in (w for w in XS if C)) -> (E for v in XS if C[v])
+            ifs = [go(ren(c, m), depth + 1) for c in g.ifs]
+            if isinstance(it, ast.GeneratorExp) and len(it.generators) == 1 and isinstance(it.elt, ast.Name) and isinstance(it.generators[0].target, ast.Name) \
+                    and it.elt.id == it.generators[0].target.id:
+                inner_v = it.generators[0].target.id
+                ifs = [ren(c, {inner_v: new}) for c in it.generators[0].ifs] + ifs
+                it = it.generators[0].iter
+            elt = go(ren(n.elt, m), depth + 1)
+            comp = ast.comprehension(target=ast.Name(id=new, ctx=ast.Store()), iter=it, ifs=ifs, is_async=g.is_async)
+            return ast.copy_location(type(n)(elt=elt, generators=[comp]), n)
+        # generic recursion
+        changed = False
+        kw = {}
+        for name, val in ast.iter_fields(n):
+            if isinstance(val, list):
+                nl = []
+                for x in val:
+                    y = go(x, depth) if isinstance(x, ast.AST) else x
+                    changed = changed or (y is not x)
+                    nl.append(y)
+                kw[name] = nl
+            elif isinstance(val, ast.AST):
+                y = go(val, depth)
+                changed = changed or (y is not val)
+                kw[name] = y
+            else:
+                kw[name] = val
+        if not changed:
+            return n
+        return ast.copy_location(type(n)(**kw), n)
+
+    return go(e, 0)
+
+
+def cdump(e) -> str:
+    """dump() of the canonical form; accepts source text too."""
+    if isinstance(e, str):
+        try:
+            e = ast.parse(e, mode="eval").body
+        except SyntaxError:
+            return e
+    return dump(canon(e))
